@@ -4,7 +4,7 @@ from hist_common import HIST_REASONS, HIST_TAGS, HIST_ASSUMPTIONS, HIST_RULE
 PROP = {
     "glue": "GH", "chk": "chk02", "explain": "explainH",
     "gotags": ["shim_memory", "shim_redis", "shim_timecache"],
-    "n": {"quick": 120, "thorough": 3000},
+    "n": {"quick": 120, "thorough": 1500},
     "rule": HIST_RULE + " Emphasis C02: announce/AnnouncePeers heavy; numwant in {0,1,2,3,4,5,8,50,2^32-1}; announcer absent / seeder / leecher / both.",
     "tags": HIST_TAGS, "reasons": HIST_REASONS, "assumptions": HIST_ASSUMPTIONS,
     "trivial_tags": [], "min_tags": 4,
